@@ -98,6 +98,25 @@ JApply(e, st) ==
       ELSE IF ~isExc /\ e.out.st.hdr # ":state" THEN Fail("Apply:header", s2)
       ELSE WithDevs(adm, IF isExc THEN "Apply:refused" ELSE "Apply:successor", s2)
 
+\* batched forms: one event carries a table of calls on one action (used when a
+\* whole truth / successor table over a small universe is replayed)
+AppRowOk(e, r, st, dv) ==
+  Admits(IsApplicable_Exp(st[e.d].D, st[e.u].u, e.act, r.args, st[r.s].st, dv),
+         IF Has(r.out, "exc") THEN [exc |-> TRUE] ELSE [exc |-> FALSE, val |-> r.out.val])
+
+JAppTable(e, st) ==
+  LET adm(dv) == \A i \in DOMAIN e.rows : AppRowOk(e, e.rows[i], st, dv)
+  IN  WithDevs(adm, "IsApplicable", st)
+
+ApplyRowOk(e, r, st, dv) ==
+  /\ (Has(r.out, "exc") \/ (StJsonClean(r.out.st) /\ r.out.st.hdr = ":state"))
+  /\ AdmitsState(Apply_Exp(st[e.d].D, st[e.u].u, e.act, r.args, st[r.s].st, r.allow, r.skip, dv),
+                 IF Has(r.out, "exc") THEN [exc |-> TRUE] ELSE [exc |-> FALSE, val |-> StOfJson(r.out.st)])
+
+JApplyTable(e, st) ==
+  LET adm(dv) == \A i \in DOMAIN e.rows : ApplyRowOk(e, e.rows[i], st, dv)
+  IN  WithDevs(adm, "Apply:successor", st)
+
 \* Purity: every live handle still has the value the store holds for it
 SnapOk(h, v, st) ==
   IF h \notin DOMAIN st THEN TRUE
@@ -116,6 +135,8 @@ Judge(e, st) ==
     [] e.c = "IsApplicable" -> JIsApplicable(e, st)
     [] e.c = "Apply"        -> JApply(e, st)
     [] e.c = "Snap"         -> JSnap(e, st)
+    [] e.c = "AppTable"     -> JAppTable(e, st)
+    [] e.c = "ApplyTable"   -> JApplyTable(e, st)
     [] OTHER                -> Fail("machinery:unknown-event:" \o e.c, st)
 
 \* what the specification expected at a rejected event (diagnostics only)
@@ -123,6 +144,16 @@ Explain(e, st) ==
   CASE e.c = "IsApplicable" -> IsApplicable_Exp(st[e.d].D, st[e.u].u, e.act, e.args, st[e.s].st, {})
     [] e.c = "Apply" -> Apply_Exp(st[e.d].D, st[e.u].u, e.act, e.args, st[e.s].st, e.allow, e.skip, {})
     [] e.c = "ParseDomain" -> ParseDomain_Exp(e.tree)
+    [] e.c = "AppTable" ->
+         LET bad == {i \in DOMAIN e.rows : ~AppRowOk(e, e.rows[i], st, {})}
+             i == CHOOSE j \in bad : TRUE
+         IN  <<"row", i, e.rows[i].args, e.rows[i].s,
+               IsApplicable_Exp(st[e.d].D, st[e.u].u, e.act, e.rows[i].args, st[e.rows[i].s].st, {})>>
+    [] e.c = "ApplyTable" ->
+         LET bad == {i \in DOMAIN e.rows : ~ApplyRowOk(e, e.rows[i], st, {})}
+             i == CHOOSE j \in bad : TRUE
+         IN  <<"row", i, e.rows[i].args, e.rows[i].s,
+               Apply_Exp(st[e.d].D, st[e.u].u, e.act, e.rows[i].args, st[e.rows[i].s].st, e.rows[i].allow, e.rows[i].skip, {})>>
     [] OTHER -> "n/a"
 
 ----------------------------------------------------------------------------
